@@ -180,6 +180,117 @@ func runC12(c *Ctx) {
 	} else {
 		ob.HoldNT("minValue + values[i | alias[i]], i = Intn(len(values))")
 	}
+	// every index gets its Prob entry: the alias tables are published only when both worklists are empty
+	ob = c.Obl("R2", "common/probdist:(*WeightedDist).genTables#worklists-drained", "every index leaves its worklist with a Prob entry assigned or is put back on a worklist, and the tables are published only when BOTH worklists are empty (an index left on a list keeps Prob 0 and is never sampled: the tables no longer reproduce the weights)")
+	if gt := p.Func("common/probdist:(*WeightedDist).genTables"); gt == nil {
+		ob.Undecide("genTables not found")
+	} else {
+		c.Touch(p.FuncKey(gt))
+		bad = ""
+		lists := p.CallsIn(gt, "container/list.New")
+		var pub []*StoreSite
+		for _, st := range p.Stores(tWD, "prob") {
+			if st.Fn == gt {
+				pub = append(pub, st)
+			}
+		}
+		gff := p.Facts(gt)
+		if len(lists) != 2 || len(pub) != 1 {
+			bad = fmt.Sprintf("%d worklists and %d publication sites of the Prob table in genTables (expected 2 and 1)", len(lists), len(pub))
+		} else {
+			for _, l := range lists {
+				lv := l.(*ssa.Call)
+				empty := hasFact(gff.NC(pub[0].Instr.Block()), func(f Fact) bool {
+					bo, ok := f.Cond.(*ssa.BinOp)
+					if !ok {
+						return false
+					}
+					lc, _ := callOf(unspill(bo.X))
+					if lc == nil || p.CalleeID(lc.Common()) != "(*container/list.List).Len" || unspill(lc.Common().Args[0]) != ssa.Value(lv) {
+						return false
+					}
+					k, isK := intConst(bo.Y)
+					op := bo.Op
+					if !f.Pol {
+						op = negOp(op)
+					}
+					// Len() <= 0, Len() == 0, Len() < 1
+					return isK && (k == 0 && (op == token.LEQ || op == token.EQL) || k == 1 && op == token.LSS)
+				})
+				if !empty {
+					bad = "the tables are published at " + p.InstrPos(pub[0].Instr) + " although the worklist created at " + p.InstrPos(lv) + " may still hold indices (no 'Len() > 0' loop over it has run to completion before)"
+				}
+			}
+			// every element taken off a list is given its Prob entry or pushed back, on every path
+			nRem := 0
+			for _, rm := range p.CallsIn(gt, "(*container/list.List).Remove") {
+				nRem++
+				var idx ssa.Value // the int taken out: Remove(...).(int)
+				for _, r := range *rm.(*ssa.Call).Referrers() {
+					if ta, ok := r.(*ssa.TypeAssert); ok {
+						idx = ta
+						for _, rr := range *ta.Referrers() {
+							if ex, ok := rr.(*ssa.Extract); ok && ex.Index == 0 {
+								idx = ex
+							}
+						}
+					}
+				}
+				if idx == nil {
+					bad = "the element removed at " + p.InstrPos(rm) + " is dropped"
+					continue
+				}
+				settled := map[ssa.Instruction]bool{}
+				for _, r := range *idx.Referrers() {
+					switch x := r.(type) {
+					case *ssa.IndexAddr:
+						// prob[idx] = ...
+						if ld, ok := unspill(x.X).(*ssa.Alloc); ok || ld == nil {
+							_ = ld
+						}
+						for _, rr := range *x.Referrers() {
+							if st, ok := rr.(*ssa.Store); ok && st.Addr == ssa.Value(x) && pub[0].Val != nil && unspill(x.X) == unspill(pub[0].Val) {
+								settled[st] = true
+							}
+						}
+					case *ssa.MakeInterface:
+						for _, rr := range *x.Referrers() {
+							if pc, ok := rr.(*ssa.Call); ok && p.CalleeID(pc.Common()) == "(*container/list.List).PushBack" {
+								settled[pc] = true
+							}
+						}
+					}
+				}
+				// from the removal, the loop head (next iteration) or the function exit is not reachable without a settling instruction
+				for _, blk := range gt.Blocks {
+					if len(blk.Instrs) == 0 {
+						continue
+					}
+					last := blk.Instrs[len(blk.Instrs)-1]
+					isExit := false
+					if _, ok := last.(*ssa.Return); ok {
+						isExit = true
+					}
+					for _, sx := range blk.Succs {
+						if sx.Dominates(blk) && sx.Dominates(rm.Block()) {
+							isExit = true // back edge of a loop containing the removal
+						}
+					}
+					if isExit && (blk == rm.Block() || canReachWithout(rm, last, nil)) && canReachWithout(rm, last, settled) {
+						bad = "the index removed at " + p.InstrPos(rm) + " can leave its iteration with neither a Prob entry nor a place on a worklist"
+					}
+				}
+			}
+			if nRem < 2 && bad == "" {
+				bad = fmt.Sprintf("only %d removals from the worklists", nRem)
+			}
+		}
+		if bad != "" {
+			ob.Violate("%s", bad)
+		} else {
+			ob.HoldNT("2 worklists, both provably empty at the publication of prob/alias; every removed index is settled")
+		}
+	}
 	ob = c.Obl("R2", tWD+".values#untouched-prefix", "the value table is a prefix of the generator's permutation of [0, max-min] and its elements are never modified (scaling by minValue happens only in Sample)")
 	bad = ""
 	for _, s := range p.Stores(tWD, "values") {
@@ -297,6 +408,72 @@ func runC12(c *Ctx) {
 		} else {
 			ob.HoldNT("min <= Intn((max+1)-min)+min <= max")
 		}
+	}
+	// the other helpers get their documented ranges from math/rand: thin wrappers over the package's
+	// rand.Rand, which is built over the CSPRNG source
+	for _, w := range []struct{ fn, method, rng string }{{"Intn", "Intn", "[0, n)"}, {"Float64", "Float64", "[0.0, 1.0)"}} {
+		ob = c.Obl("R4", "common/csrand:"+w.fn+"#delegates", "csrand."+w.fn+" returns "+w.rng+": it is exactly Rand."+w.method+"(its arguments) of the package-level math/rand.Rand over the CSPRNG source (a hand-rolled conversion is not decided here: float rounding can reach the excluded end)")
+		fn := p.Func("common/csrand:" + w.fn)
+		if fn == nil {
+			ob.Undecide("csrand.%s not found", w.fn)
+			continue
+		}
+		c.Touch(p.FuncKey(fn))
+		bad = ""
+		for _, r := range returnsOf(fn) {
+			call, _ := callOf(unspill(r.Results[0]))
+			if call == nil || p.CalleeID(call.Common()) != "(*math/rand.Rand)."+w.method {
+				bad = "the value returned at " + p.InstrPos(r) + " is not the result of Rand." + w.method
+				continue
+			}
+			a := call.Common().Args
+			if !isGlobalLoadMod2(a[0], "common/csrand", "Rand") {
+				bad = "the generator used at " + p.InstrPos(r) + " is not csrand.Rand"
+			}
+			for i, q := range fn.Params {
+				if i+1 >= len(a) || unspill(a[i+1]) != ssa.Value(q) {
+					bad = "the arguments are not handed through unchanged"
+				}
+			}
+		}
+		if bad != "" {
+			ob.Violate("%s", bad)
+		} else {
+			ob.HoldNT("return Rand.%s(...)", w.method)
+		}
+	}
+	ob = c.Obl("R4", "common/csrand.Rand#source", "csrand.Rand is rand.New(csRandSource) and is never replaced")
+	bad = ""
+	nst := 0
+	for _, fn := range p.Funcs {
+		allInstrs(fn, func(in ssa.Instruction) {
+			st, ok := in.(*ssa.Store)
+			if !ok {
+				return
+			}
+			g, ok := st.Addr.(*ssa.Global)
+			if !ok || g.Name() != "Rand" || g.Pkg == nil || relPkg(g.Pkg.Pkg.Path()) != "common/csrand" {
+				return
+			}
+			nst++
+			nc, _ := callOf(unspill(st.Val))
+			if fn.Name() != "init" || nc == nil || p.CalleeID(nc.Common()) != "math/rand.New" {
+				bad = "csrand.Rand is assigned at " + p.InstrPos(st) + " with something other than rand.New(...) in the package initialiser"
+				return
+			}
+			mi, ok := unspill(nc.Common().Args[0]).(*ssa.MakeInterface)
+			if !ok || !strings.HasSuffix(mi.X.Type().String(), "common/csrand.csRandSource") {
+				bad = "csrand.Rand is not built over csRandSource"
+			}
+		})
+	}
+	if nst != 1 && bad == "" {
+		bad = fmt.Sprintf("%d assignments of csrand.Rand", nst)
+	}
+	if bad != "" {
+		ob.Violate("%s", bad)
+	} else {
+		ob.HoldNT("Rand = rand.New(csRandSourceInstance), once, in init")
 	}
 	set := map[*ssa.Function]bool{}
 	for _, k := range []string{"common/probdist:(*WeightedDist).genValues", "common/csrand:IntRange", "common/csrand:Intn", "common/probdist:New"} {
@@ -607,4 +784,14 @@ func rpoIndex(fn *ssa.Function) map[*ssa.BasicBlock]int {
 		out[b] = len(post) - 1 - i
 	}
 	return out
+}
+
+// isGlobalLoadMod2: v loads the package-level variable name of module package rel.
+func isGlobalLoadMod2(v ssa.Value, rel, name string) bool {
+	u, ok := unspill(v).(*ssa.UnOp)
+	if !ok || u.Op != token.MUL {
+		return false
+	}
+	g, ok := u.X.(*ssa.Global)
+	return ok && g.Name() == name && g.Pkg != nil && relPkg(g.Pkg.Pkg.Path()) == rel
 }
